@@ -94,6 +94,9 @@ class Effects:
                 if obj is not None and k != 'CXXConstructExpr':
                     if c.get('const'):
                         continue
+                    if '_iterator' in cq or '_iterator' in c.get('qname', ''):
+                        # moving an iterator (++it, it += n, it = other) changes the iterator, not the range it walks
+                        continue
                     key = name
                     if cq.startswith(STREAM_CLASSES) and name in ('clear', 'get'):
                         key = name + '#stream'
